@@ -104,3 +104,23 @@ Theorem C05_independent_fsm : forall (HO : hops) (data : bytes HO) (bs : N) (q :
   encode_ranges_validated_fsm HO data' ob q = (Ok tt, flat HO (honest HO data bs q)).
 Proof. exact c05_independent_fsm. Qed.
 Print Assumptions C05_independent_fsm.
+
+(* ======== Final composition (proofs in Proofs/FinalEnc.v) ========
+   On a store created by the crate (created_store, Props/C03.v) and the blob's own data every unit of the
+   encoder's plan is intact (the premise of C05_independent / C05_independent_fsm), every parent of the plan
+   is stored_ok, and both validating encoders return Ok with the honest bytes. *)
+From BaoV Require Import Model.Sync Proofs.FinalStore Proofs.FinalEnc.
+
+Theorem C05_created_store_ok : forall (HO : hops), hash_ok HO ->
+  forall (data : bytes HO) (bs : N), blen HO data <= 2 ^ 63 -> bs <= 10 ->
+  forall ob : outboard HO, created_store HO data bs ob ->
+  forall q : ranges, wf_ranges q = true ->
+  (Forall (unit_ok HO data bs (load_sync HO ob) data)
+          (pre_order_chunks_iter (mkTree (blen HO data) bs) (truncate_ranges q (blen HO data)) 0) /\
+   Forall (unit_ok HO data bs (load_fsm HO ob) data)
+          (pre_order_chunks_iter (mkTree (blen HO data) bs) (truncate_ranges q (blen HO data)) 0)) /\
+  (forall nd, In nd (enc_nodes (blen HO data) bs q) -> stored_ok HO data ob nd /\ stored_ok_fsm HO data ob nd) /\
+  encode_ranges_validated HO data ob q = (Ok tt, flat HO (honest HO data bs q)) /\
+  encode_ranges_validated_fsm HO data ob q = (Ok tt, flat HO (honest HO data bs q)).
+Proof. exact c05_created_store_ok. Qed.
+Print Assumptions C05_created_store_ok.
